@@ -207,10 +207,6 @@ theorem skip_seriesLength (x : Str) : Skip (normLine ("@seriesLength ".toList ++
 theorem skip_equalLength : Skip (normLine "@equalLength true".toList) :=
   Or.inr ⟨by rfl, by rfl, by rfl, by rfl, by rfl⟩
 
-/-- the line the writer emits for label-free data is NOT recognised as the class label tag -/
-theorem skip_noLabelLine : Skip (normLine noLabelLine) :=
-  Or.inr ⟨by rfl, by rfl, by rfl, by rfl, by rfl⟩
-
 theorem step_written_problemName (st : St) (name : Str) (hn : strip name ≠ []) (hd : st.dataStarted = false) :
     step st (normLine ("@problemName ".toList ++ name)) = .ok { st with hasPN := true, metaStarted := true } := by
   have e : "@problemName ".toList ++ name = sProblemName ++ (' ' :: name) := by rfl
@@ -252,7 +248,7 @@ theorem step_written_classLabel (st : St) (J : Str) (hJ : strip J ≠ []) (hd : 
   · rw [splitOn_append_sep ' ' _ _ hs1, splitOn_append_sep ' ' _ _ hs2]
 
 theorem step_written_classLabel_false (st : St) (hd : st.dataStarted = false) :
-    step st (normLine noLabelLineFixed)
+    step st (normLine noLabelLine)
       = .ok { st with classLabels := false, hasCL := true, metaStarted := true } :=
   step_classLabel_false st _ kwClassLabel sFalse (by decide) (by rfl) (by rfl) (by rfl) (by rfl) (by rfl) (by rfl) hd
 
